@@ -55,8 +55,8 @@ scen.append(S("invalidate-vs-removal-mid-list",2,[st("Start",g=1,lo=1,hi=4),st("
   st("Start",g=4,key="m",lo=1,hi=4),st("LoadBegin",g=4),st("LoadEnd",g=4,ok=True),st("Post",g=4),st("GetEnd",g=4),
   st("Start",g=5,key="j",lo=1,hi=4),st("LoadBegin",g=5),st("LoadEnd",g=5,ok=True),st("Post",g=5),st("GetEnd",g=5),
   st("Start",g=6,lo=1,hi=4),st("LoadBegin",g=6),st("LoadEnd",g=6,ok=True),st("Post",g=6),st("GetEnd",g=6)]))
-# reset while invalidate is parked: everything is dropped, later requests reload
-scen.append(S("invalidate-vs-reset",2,[st("Start",g=1,lo=1,hi=2),st("LoadBegin",g=1),st("LoadEnd",g=1,ok=True),st("Post",g=1),st("GetEnd",g=1),
+# the removed bucket is created again while invalidate is still parked (a bucket created during the call needs no visit)
+scen.append(S("invalidate-vs-removal-and-recreate",2,[st("Start",g=1,lo=1,hi=2),st("LoadBegin",g=1),st("LoadEnd",g=1,ok=True),st("Post",g=1),st("GetEnd",g=1),
   st("Start",g=2,key="j",lo=1,hi=2),st("LoadBegin",g=2),st("LoadEnd",g=2,ok=True),st("Post",g=2),st("GetEnd",g=2),
   st("InvBegin",i=1,T=[1],at="k"),st("RemoveBucket",key="j"),st("Start",g=3,key="j",lo=1,hi=2),st("LoadBegin",g=3),st("LoadEnd",g=3,ok=True),st("Post",g=3),st("GetEnd",g=3),
   st("InvApply",i=1),st("Start",g=4,key="j",lo=1,hi=2),st("GetEnd",g=4),st("Start",g=5,lo=1,hi=2),st("LoadBegin",g=5),st("LoadEnd",g=5,ok=True),st("Post",g=5),st("GetEnd",g=5)]))
